@@ -70,6 +70,8 @@ def tagger(s: Sym, node: Any, inherit: Sequence[V]) -> Optional[set]:
             return {"!RESET", "CODE"}
         if fn in ("type", "len", "enumerate", "isinstance", "issubclass", "is_generic", "hasattr"):
             return {"!RESET"}
+    if name.startswith("type_name(") and "TYPEREF_RAW" not in s.tags:
+        return {"!RESET", "TYPEREF_RAW"}
     if isinstance(node, ast.Attribute):
         if node.attr == "name" and "ANNOTATIONS" in inh:
             return {"!RESET", "RAW", "OPTIONAL", "ALIAS_ANN"}
@@ -140,8 +142,21 @@ def _m_new_valuespec(pe: Evaluator, ci, args, kwargs, p: Path, e):
     return [(pe.new_obj(p, ci.key, attrs), p)]
 
 
+def _m_new_tme(pe: Evaluator, ci, args, kwargs, p: Path, e):
+    """``TypeMatchEligibleExpression(text)`` is a ``str`` subclass: the value is the text itself."""
+    v = args[0] if args else Const("")
+    p.events.append(("type_match_eligible", v))
+    return [(v, p)]
+
+
+def is_type_match_eligible(p: Path, v: V) -> bool:
+    k = v.key()
+    return any(e[0] == "type_match_eligible" and e[1].key() == k for e in p.events)
+
+
 def make_eval(repo: Repo, **kw) -> Evaluator:
     models = dict(kw.pop("models", {}) or {})
+    models.setdefault("new:TypeMatchEligibleExpression", _m_new_tme)
     models.setdefault("method:copy", _m_copy)
     models.setdefault("new:ValueSpec", _m_new_valuespec)
     kw.setdefault("tagger", tagger)
